@@ -1,6 +1,7 @@
 package main
 
 import (
+	"berty.tech/go-orbit-db/iface"
 	"context"
 	"encoding/json"
 	"fmt"
@@ -406,7 +407,103 @@ func wireCmd(args []string) int {
 			}
 		}()
 	}
+	malformedOperations(in, res)
 	return res.write(args[1])
+}
+
+// malformedOperations: a well-formed, correctly signed entry of an authorised writer whose payload is not a well-formed
+// operation of the store (what another implementation, or a peer using the log directly, may write). It reaches the
+// replica as an announced head. The process survives, and the other databases of the peer are as they were.
+func malformedOperations(in *WireInput, res *Result) {
+	ctx := context.Background()
+	payloads := []string{
+		`{"op":"PUTALL","docs":[null]}`, `{"op":"PUTALL","docs":null}`, `{"op":"PUTALL","docs":[{"key":"a","value":"eA=="},null]}`,
+		`{"op":"PUT","key":null,"value":null}`, `{"op":"PUT"}`, `{"op":5}`, `[]`, `"text"`, `null`, `{"op":"PUT","key":"k","value":{"a":1}}`,
+		`{"op":"DEL"}`, `{"op":"ADD","value":null}`, `{"op":"PUTALL","docs":[{"key":null,"value":null}]}`, `{}`,
+	}
+	for _, stype := range []string{"doc", "kv", "log"} {
+		for pi, payload := range payloads {
+			bid := fmt.Sprintf("malformed-operation/%s/%d", stype, pi)
+			w := sim.NewWorld()
+			wn, err := w.AddPeer(fmt.Sprintf("mo-w-%s-%d", stype, pi)).Start("")
+			if err != nil {
+				res.Inconclusive = append(res.Inconclusive, bid+": "+err.Error())
+				return
+			}
+			rn, err := w.AddPeer(fmt.Sprintf("mo-r-%s-%d", stype, pi)).Start("")
+			if err != nil {
+				res.Inconclusive = append(res.Inconclusive, bid+": "+err.Error())
+				return
+			}
+			func() {
+				defer wn.Close()
+				defer rn.Close()
+				ac := sim.AccessFor([]string{wn.DB.Identity().ID})
+				wd, err := wn.Open("mo-"+bid, realType(stype), &orbitdb.CreateDBOptions{AccessController: ac})
+				if err != nil {
+					res.Inconclusive = append(res.Inconclusive, bid+": "+err.Error())
+					return
+				}
+				wo, err := wn.Open("mo-other-"+bid, "eventlog", &orbitdb.CreateDBOptions{AccessController: ac})
+				if err != nil {
+					res.Inconclusive = append(res.Inconclusive, bid+": "+err.Error())
+					return
+				}
+				rd, err := rn.Open(wd.Addr, realType(stype), nil)
+				if err != nil {
+					res.Inconclusive = append(res.Inconclusive, bid+": "+err.Error())
+					return
+				}
+				ro, err := rn.Open(wo.Addr, "eventlog", nil)
+				if err != nil {
+					res.Inconclusive = append(res.Inconclusive, bid+": "+err.Error())
+					return
+				}
+				res.Behaviours++
+				mark("%s: an entry of the authorised writer whose payload is %s, announced on the topic of a %s store", bid, payload, stype)
+				e, err := mkEntry(ctx, wn, wn.DB.Identity(), wd.Addr, []byte(payload), []cid.Cid{}, 1)
+				if err != nil {
+					res.Inconclusive = append(res.Inconclusive, bid+": "+err.Error())
+					return
+				}
+				w.Deliver(&sim.Msg{Kind: "pub", Topic: wd.Addr, From: wn.P.Name, To: rn.P.Name, Payload: headsMsg(wd.Addr, e)})
+				if err := sim.Settle(settleTimeout, rn); err != nil {
+					res.violate(Violation{Property: in.Property, Kind: "stuck", Behaviour: bid, Detail: "after an entry with a malformed operation the peer does not come to rest: " + err.Error()})
+					return
+				}
+				// reading the store does not crash either
+				switch stype {
+				case "kv":
+					_ = rd.S.(orbitdb.KeyValueStore).All()
+				case "doc":
+					_, _ = rd.S.(orbitdb.DocumentStore).Query(ctx, func(interface{}) (bool, error) { return true, nil })
+				default:
+					all := -1
+					_, _ = rd.S.(orbitdb.EventLogStore).List(ctx, &iface.StreamOptions{Amount: &all})
+				}
+				res.Comparisons++
+				res.Stats["malformed_operations"]++
+				// the other database of the peer still replicates
+				op, err := wo.S.(orbitdb.EventLogStore).Add(ctx, []byte("after"))
+				if err != nil {
+					res.Inconclusive = append(res.Inconclusive, bid+": "+err.Error())
+					return
+				}
+				_ = sim.Settle(settleTimeout, wn)
+				for _, m := range w.Bag() {
+					w.Take(m.ID)
+				}
+				w.Deliver(&sim.Msg{Kind: "pub", Topic: wo.Addr, From: wn.P.Name, To: rn.P.Name, Payload: headsMsg(wo.Addr, op.GetEntry().(*entry.Entry))})
+				if err := sim.Settle(settleTimeout, rn); err != nil {
+					res.violate(Violation{Property: in.Property, Kind: "stuck", Behaviour: bid, Detail: "after an entry with a malformed operation the peer does not come to rest: " + err.Error()})
+					return
+				}
+				if ro.S.OpLog().Len() != 1 {
+					res.violate(Violation{Property: in.Property, Kind: "valid-ignored", Behaviour: bid, Detail: fmt.Sprintf("after a %s store received an entry whose payload is %s, a valid message for another database of the peer was not handled", stype, payload)})
+				}
+			}()
+		}
+	}
 }
 
 func truncate(b []byte, n int) []byte {
